@@ -113,8 +113,20 @@ def cdate(d):
     if not isinstance(d, datetime.datetime):
         return "o"
     po = PO.get(id(d))
-    return "c:%d,%d,%d,%d,%d,%d,%d%s" % (d.year, d.month, d.day, d.hour, d.minute, d.second, int(d.tzinfo is not None),
-                                         "|?" if po is None else "|i%dt%d" % po)
+    mark = "+tzid=" + hexs(d.tzinfo.looked_up) if isinstance(d.tzinfo, MarkTz) else ""
+    return "c:%d,%d,%d,%d,%d,%d,%d%s%s" % (d.year, d.month, d.day, d.hour, d.minute, d.second, int(d.tzinfo is not None),
+                                           "|?" if po is None else "|i%dt%d" % po, mark)
+
+class MarkTz(datetime.tzinfo):
+    """the zone the correspondence's `tzids` callable returns: it remembers the NAME it was looked up with"""
+    def __init__(self, name):
+        self.looked_up = name
+    def utcoffset(self, dt): return datetime.timedelta(hours=1)
+    def dst(self, dt): return datetime.timedelta(0)
+    def tzname(self, dt): return "mark"
+
+def mark_tz(name):
+    return MarkTz(name)
 
 def cargs(kw):
     def wl(v):
@@ -158,6 +170,16 @@ def impl_parse(text, **opts):
         po_reg[id(d)] = (int(bool(kw.get("ignoretz"))), int(kw.get("tzinfos") is not None and kw.get("tzinfos") is opts.get("tzinfos")))
         return d
     P.parse = rec_parse
+    # _parse_date_value may replace the parsed value (TZID): the returned values inherit the options of their parse calls
+    orig_pdv = R._rrulestr._parse_date_value
+    def rec_pdv(self, *a, **kw):
+        n0 = len(keep)
+        out = orig_pdv(self, *a, **kw)
+        for d, src in zip(out, keep[n0:n0 + len(out)]):
+            if id(d) not in po_reg:
+                keep.append(d); po_reg[id(d)] = po_reg[id(src)]
+        return out
+    R._rrulestr._parse_date_value = rec_pdv
     raised = None
     obj = None
     try:
@@ -171,6 +193,7 @@ def impl_parse(text, **opts):
         raised = "err " + ("ValueError" if k == "ParserError" else k)
     finally:
         P.parse = orig_parse
+        R._rrulestr._parse_date_value = orig_pdv
         for (cls, name), orig in saved.items():
             setattr(cls, name, orig)
     if raised is not None:
@@ -253,6 +276,27 @@ def spell(rng, text, level):
                 np_.append(k + "=" + v)
             l = ("RRULE:" if rng.random() < 0.8 or len(lines) > 1 else "") + ";".join(np_)
             if level > 1 and rng.random() < 0.3: l = l.replace("RRULE:", "rrule:")
+        out.append(l)
+    return "\n".join(out)
+
+def rcase(rng, w):
+    return "".join(c.lower() if rng.random() < 0.5 else c.upper() for c in w)
+
+def spell_date_lines(rng, text, tzid=None, level=2):
+    """RFC spellings of the DTSTART / EXDATE / RDATE lines: letter case of the property and parameter names, an optional
+    VALUE=DATE-TIME parameter before or after TZID, TZID names in mixed case (kept as written); with tzid=None only
+    meaning-preserving changes are made"""
+    out = []
+    for l in text.split("\n"):
+        head_, sep, val = l.partition(":")
+        name = head_.split(";")[0].upper()
+        if sep and name in ("DTSTART", "EXDATE", "RDATE") and ";" not in head_:
+            parms = []
+            if tzid and name != "RDATE":
+                parms.append((rcase(rng, "TZID") if level > 1 else "TZID") + "=" + tzid)
+            if rng.random() < 0.4:
+                parms.insert(rng.randint(0, len(parms)), (rcase(rng, "VALUE") if level > 1 else "VALUE") + "=" + (rcase(rng, "DATE-TIME") if level > 1 else "DATE-TIME"))
+            l = (rcase(rng, name) if level > 1 else name) + "".join(";" + p for p in parms) + ":" + (val.lower() if level > 1 and rng.random() < 0.3 else val)
         out.append(l)
     return "\n".join(out)
 
@@ -408,6 +452,21 @@ def correspondence(ctx):
             # single edits
             k = rng.randint(0, len(s))
             cases.append((s[:k] + rng.choice(list(";=,:+-0123456789 \nMOXZ(") + ["BYDAY=", "FREQ="]) + s[k + rng.randint(0, 1):], {}))
+    # DTSTART / EXDATE lines with TZID parameters in every spelling (the name table, case, parameter order, folding)
+    for r, s, _ in rules:
+        if rng.random() < 0.5:
+            name = rng.choice(["Foo/Bar", "America/New_York", "x", "UTC", "a b", "Z=1", "tzid=inner"])
+            t = s + rng.choice(["", "\nEXDATE:19970903T090000", "\nEXDATE:19970903T090000,19970904T090000\nRDATE:19970910T090000"])
+            t = spell_date_lines(rng, t, tzid=name)
+            o = rng.choice([{}, {"forceset": True}, {"unfold": True}, {"compatible": True}])
+            if "unfold" in o or "compatible" in o:
+                t = fold(rng, t, rng.random() < 0.3)
+            if " " in name and not ("unfold" in o or "compatible" in o):
+                continue
+            cases.append((t, o))
+            if rng.random() < 0.3:
+                # a second, different TZID in the same text / an empty name / a parameter after TZID
+                cases.append((t.replace(":", ";X=1:", 1) if rng.random() < 0.5 else t + "\nEXDATE;TZID=Other/Zone:19970905T090000", o))
     # the same rule through every code path of _parse_rfc, with the pass-through options and Z spellings
     for r, s, _ in rules:
         if rng.random() < 0.7:
@@ -415,8 +474,9 @@ def correspondence(ctx):
     cases += [(m, {}) for m in MALFORMED] + [(m, {"forceset": True}) for m in MALFORMED[:12]] + [(m, {"unfold": True}) for m in MALFORMED[:12]]
     reqs, impl = [], []
     for text, opts in cases:
-        if not all(ord(c) < 128 for c in text) or "TZID" in text.upper():
+        if not all(ord(c) < 128 for c in text):
             continue
+        opts = dict(opts, tzids=mark_tz)              # every name that reaches the tzids lookup comes back as a marked zone
         flags = "%d%d%d%d%d%d%d" % (int(opts.get("unfold", False)), int(opts.get("forceset", False)), int(opts.get("compatible", False)),
                                     int("dtstart" in opts), int(bool(opts.get("ignoretz"))), int(opts.get("tzinfos") is not None), int(bool(opts.get("cache"))))
         try:
@@ -527,6 +587,8 @@ def option_scenarios(freq, ds, kw):
         "no-cache":   dict(suffix="", opts={}, zone=None),
     }
 
+FOLD = "\x00fold\x00"
+
 def run_option_case(ctx, R, freq, ds, kw, scen_name, scen, rng):
     """one rule, one option scenario, every applicable path; returns False when the scenario does not apply"""
     from dateutil import tz
@@ -545,11 +607,14 @@ def run_option_case(ctx, R, freq, ds, kw, scen_name, scen, rng):
     value = str(build(freq, ds, kw)).split("\n")[1][6:]
     if "until" in kw:
         value = value.replace("UNTIL=" + stamp(kw["until"]), "UNTIL=" + stamp(kw["until"]) + ("Z" if tzid else sfx))
-    dline = ("DTSTART;TZID=%s:%s" % (tzid, stamp(ds))) if tzid else ("DTSTART:" + stamp(ds) + sfx)
+    # with a TZID scenario the DTSTART and EXDATE lines get their TZID parameter (in a random spelling) further down
+    dline = ("DTSTART:" + stamp(ds)) if tzid else ("DTSTART:" + stamp(ds) + sfx)
     rd = [ds + datetime.timedelta(days=40, hours=1), ds + datetime.timedelta(days=41)]
     exd = [ds + datetime.timedelta(days=1)]
-    dsfx = "Z" if tzid else sfx
+    dsfx = "Z" if tzid else sfx            # RDATE takes no TZID parameter: UTC values there
     dzone = tz.UTC if tzid else zone
+    xsfx = "" if tzid else sfx             # EXDATE values: the TZID parameter gives the zone
+    xzone = zone
     if tzid and "ignoretz" in opts:
         return False
     second = "FREQ=YEARLY;COUNT=2"
@@ -565,7 +630,7 @@ def run_option_case(ctx, R, freq, ds, kw, scen_name, scen, rng):
     if not tzid:
         paths += [("bare-value+dtstart=", value, {"dtstart": eds}, want_rule, R.rrule),
                   ("RRULE-line+dtstart=", "RRULE:" + value, {"dtstart": eds}, want_rule, R.rrule),
-                  ("folded-RRULE-line+unfold+dtstart=", fold(rng, "RRULE:" + value), {"dtstart": eds, "unfold": True}, want_rule, R.rrule),
+                  ("folded-RRULE-line+unfold+dtstart=", FOLD + "RRULE:" + value, {"dtstart": eds, "unfold": True}, want_rule, R.rrule),
                   ("two-RRULE-lines+dtstart=", "RRULE:" + value + "\nRRULE:" + second, {"dtstart": eds},
                    set_of([("rrule", want_rule), ("rrule", rule2(eds))]), R.rruleset),
                   ("RRULE-line+forceset+dtstart=", "RRULE:" + value, {"dtstart": eds, "forceset": True}, set_of([("rrule", want_rule)]), R.rruleset)]
@@ -574,21 +639,28 @@ def run_option_case(ctx, R, freq, ds, kw, scen_name, scen, rng):
               ("DTSTART+RRULE, dtstart= overridden by the line", dline + "\nRRULE:" + value, {"dtstart": other}, want_rule, R.rrule),
               ("DTSTART+bare-value", dline + "\n" + value, {}, want_rule, R.rrule),
               ("DTSTART+RRULE+forceset", dline + "\nRRULE:" + value, {"forceset": True}, set_of([("rrule", want_rule)]), R.rruleset),
-              ("DTSTART+RRULE+unfold", fold(rng, dline + "\nRRULE:" + value), {"unfold": True}, want_rule, R.rrule),
+              ("DTSTART+RRULE+unfold", FOLD + dline + "\nRRULE:" + value, {"unfold": True}, want_rule, R.rrule),
               ("DTSTART+RRULE+RDATE", dline + "\nRRULE:" + value + "\nRDATE:" + ",".join(stamp(d) + dsfx for d in rd), {},
                set_of([("rrule", want_rule)] + [("rdate", d.replace(tzinfo=dzone)) for d in rd]), R.rruleset),
-              ("DTSTART+RRULE+EXDATE", dline + "\nRRULE:" + value + "\nEXDATE:" + ",".join(stamp(d) + dsfx for d in exd), {},
-               set_of([("rrule", want_rule)] + [("exdate", d.replace(tzinfo=dzone)) for d in exd]), R.rruleset),
+              ("DTSTART+RRULE+EXDATE", dline + "\nRRULE:" + value + "\nEXDATE:" + ",".join(stamp(d) + xsfx for d in exd), {},
+               set_of([("rrule", want_rule)] + [("exdate", d.replace(tzinfo=xzone)) for d in exd]), R.rruleset),
               ("DTSTART+2xRRULE", dline + "\nRRULE:" + value + "\nRRULE:" + second, {},
                set_of([("rrule", want_rule), ("rrule", rule2(eds))]), R.rruleset),
               ("DTSTART+RRULE+EXRULE", dline + "\nRRULE:" + value + "\nEXRULE:" + second, {},
                set_of([("rrule", want_rule), ("exrule", rule2(eds))]), R.rruleset),
-              ("DTSTART+RRULE+RDATE+unfold", fold(rng, dline + "\nRRULE:" + value + "\nRDATE:" + ",".join(stamp(d) + dsfx for d in rd)), {"unfold": True},
+              ("DTSTART+RRULE+RDATE+unfold", FOLD + dline + "\nRRULE:" + value + "\nRDATE:" + ",".join(stamp(d) + dsfx for d in rd), {"unfold": True},
                set_of([("rrule", want_rule)] + [("rdate", d.replace(tzinfo=dzone)) for d in rd]), R.rruleset),
-              ("DTSTART+RRULE+compatible", fold(rng, dline + "\nRRULE:" + value), {"compatible": True},
+              ("DTSTART+RRULE+compatible", FOLD + dline + "\nRRULE:" + value, {"compatible": True},
                set_of([("rrule", want_rule), ("rdate", eds)]), R.rruleset)]
     for name, txt, extra, expect, typ in paths:
         o = dict(opts); o.update(extra)
+        dofold = txt.startswith(FOLD)
+        txt = txt[len(FOLD):] if dofold else txt
+        # every RFC spelling of the date lines: property / parameter names in any letter case, VALUE=DATE-TIME before or
+        # after TZID, the TZID name as written; then (unfold / compatible) folded anywhere, also inside the parameters
+        txt = spell_date_lines(rng, txt, tzid=tzid, level=rng.choice([1, 2]))
+        if dofold:
+            txt = fold(rng, txt)
         shown = {k: (v.isoformat() if isinstance(v, datetime.datetime) else ("<callable>" if callable(v) else (sorted(v) if isinstance(v, dict) else v))) for k, v in o.items()}
         case = {"kind": "options", "scenario": scen_name, "path": name, "text": txt, "opts": shown,
                 "expect": {"freq": freq, "dtstart": ds.isoformat(), "kwargs": repr(kw)}}
